@@ -95,7 +95,10 @@ def check(case, stats):
             legal = done or (phase == 1 and call in ("step", "first", "single", "run")) or (phase == 2 and call in ("second", "single"))
             where = f"schedule {si} call #{ci} {call} (phase {phase}, {completed} instructions completed, done={done})"
             try:
-                fn()
+                if call == "run":
+                    core.call_with_limit(fn, 60, "run-does-not-return", case, where)
+                else:
+                    fn()
                 raised = None
             except StepSequenceError as ex:
                 raised = ex
